@@ -185,7 +185,7 @@ def gen_scenario(r, idx, family="mixed", force_signal=False):
     scripts = []
     if family != "hostile" and r.random() < 0.35:
         for j in range(r.choice([1, 1, 2])):
-            sk = r.choice(["pass", "pass", "pass", "fail", "execfail", "timeout"])
+            sk = r.choice(["pass", "pass", "pass", "fail", "execfail", "timeout", "leaky"])
             sss, ssf = r.choice([(True, True), (True, False), (False, True), (False, False), (None, None)])
             scripts.append({"id": f"s{j}_{idx}", "kind": sk, "ss": sss, "sf": ssf,
                             "capture": r.random() < 0.5})
@@ -256,12 +256,17 @@ def finish_scenario(sc):
                    "fail": ["/bin/sh", "-c", f"echo C17-MARK {s['id']} attempt=1; echo oops >&2; exit 3"],
                    "execfail": ["/nonexistent/c17-setup-script"],
                    "timeout": ["/bin/sh", "-c", "sleep 30"],
+                   # exits 0 while a background child keeps the captured pipes open: a leaky pass
+                   "leaky": ["/bin/sh", "-c", f"echo C17-MARK {s['id']} attempt=1; sleep 1 & exit 0"],
                    # shuts down gracefully (status 0) when the run is cancelled by a signal
                    "graceful": ["/bin/sh", "-c", f"trap 'exit 0' TERM INT; echo C17-MARK {s['id']} attempt=1; "
                                                  "sleep 3 & wait"]}[s["kind"]]
             lines += [f"[script.{s['id']}]", "command = [" + ", ".join(toml_str(c) for c in cmd) + "]",
                       'slow-timeout = { period = "300ms", terminate-after = 2, grace-period = "100ms" }',
-                      f"capture-stdout = {coq_bool(s['capture'])}", f"capture-stderr = {coq_bool(s['capture'])}"]
+                      f"capture-stdout = {coq_bool(s['capture'] or s['kind'] == 'leaky')}",
+                      f"capture-stderr = {coq_bool(s['capture'] or s['kind'] == 'leaky')}"]
+            if s["kind"] == "leaky":
+                lines += ['leak-timeout = "100ms"']
             if s["ss"] is not None:
                 lines += [f"junit.store-success-output = {coq_bool(s['ss'])}",
                           f"junit.store-failure-output = {coq_bool(s['sf'])}"]
@@ -310,6 +315,7 @@ def fixed_scenarios():
                     tests=[{"bin": "beta::t2", "name": "a", "kind": "pass", "ss": True, "sf": False,
                             "selected": True, "plan": ["pass", "pass"]}], bin_tests=bt, overrides=[],
                     scripts=[{"id": "ok_3", "kind": "pass", "ss": None, "sf": None, "capture": True},
+                             {"id": "leaky_3", "kind": "leaky", "ss": True, "sf": True, "capture": True},
                              {"id": "bad_3", "kind": "fail", "ss": False, "sf": True, "capture": True}],
                     threads=1))
     # fail-fast cancellation with several tests after the failing one
